@@ -132,6 +132,15 @@ func (e *SpecEnv) evalBool(ex Expr) *Term {
 // coerce an SVal to a term of integer type ty (handles untyped constants)
 func (e *SpecEnv) asInt(v SVal, ty IntTy) *Term {
 	if v.C != nil {
+		if !e.o().M.BV {
+			if ty == tyInt {
+				// specification arithmetic on int is mathematical in int mode: the constant is itself
+				return e.o().IntBig(v.C)
+			}
+			if v.C.Cmp(ty.Min()) < 0 || v.C.Cmp(ty.Max()) > 0 {
+				sfail("constant %s does not fit the type it is compared or combined with", v.C)
+			}
+		}
 		return e.o().Const(ty, v.C)
 	}
 	t, ok := v.V.(*Term)
